@@ -446,6 +446,17 @@ func checkOverlapWeights(c *Ctx, p *core.Prog, m, cont *ssa.Function) {
 					if fa, ok := x.X.(*ssa.FieldAddr); ok && strings.HasSuffix(core.TypeName(fa.X.Type()), "/v2.Match") {
 						fields[core.FieldName(fa)] = true
 					}
+				case *ssa.Call:
+					// a helper of the package that computes the weight of a match: what its results are built from
+					if cal := x.Call.StaticCallee(); cal != nil && core.FuncPkgPath(cal) == v2pkg && len(cal.Blocks) > 0 {
+						for _, cb := range cal.Blocks {
+							if ret, isRet := cb.Instrs[len(cb.Instrs)-1].(*ssa.Return); isRet {
+								for _, r := range ret.Results {
+									walk(r, depth+1)
+								}
+							}
+						}
+					}
 				}
 			}
 			walk(bo.X, 0)
